@@ -4,6 +4,21 @@ From MV Require Import Base.Val Topics.Levels Topics.Match Hooks.Chain.
 From Coq Require Import Lia.
 Open Scope N_scope.
 
+(* ---------- the hook result class is insensitive to %w wrapping ---------- *)
+Lemma classify_wrap (e : rawerr) : e <> RNil -> classify (RWrap e) = classify e.
+Proof. destruct e; intro H; try reflexivity. contradiction H; reflexivity. Qed.
+
+Lemma classify_wrapn (n : nat) (e : rawerr) : e <> RNil -> classify (wrapn n e) = classify e.
+Proof.
+  intro H. induction n as [|k IH]; [reflexivity|]. cbn [wrapn]. rewrite classify_wrap; [exact IH|].
+  destruct k; cbn; [exact H | discriminate].
+Qed.
+
+Lemma classify_sentinels (n : nat) (c : N) :
+  classify (wrapn n RReject) = EReject /\ classify (wrapn n RIgnore) = EIgnore /\
+  classify (wrapn n (RCode c)) = ECode c /\ classify (wrapn n RPlain) = EOther.
+Proof. repeat split; rewrite classify_wrapn; try reflexivity; discriminate. Qed.
+
 (* ---------- order: registration order, each hook sees the previous output ---------- *)
 
 Lemma publish_from_trace (hs : list hook) (cl : client) (pk0 p : ppkt) :
